@@ -17,8 +17,9 @@
 (***************************************************************************)
 EXTENDS Machine, IOUtils
 
-CONSTANT CheckObs    \* TRUE: validation.  FALSE: diagnosis - follow the calls, print where
+CONSTANT CheckObs,   \* TRUE: validation.  FALSE: diagnosis - follow the calls, print where
                      \* the logged outcome / observers differ from the specification
+         ObsFields   \* the observers this check compares (those its property speaks of); {} = all
 
 Tr == ndJsonDeserialize(IOEnv.TRACE)
 
@@ -34,7 +35,10 @@ TReset == /\ Tr[l].c.op = "reset"
           /\ last' = [c |-> Tr[l].c, out |-> "ok"]
           /\ l' = l + 1
 
-Differs(ev, r) == r.out # ev.out \/ Obs(r.g) # ev.obs
+\* the logged projection carries exactly the compared observers (plus "inconsistent" when the
+\* harness found the real observers inconsistent with each other - which never matches)
+Proj(o) == IF ObsFields = {} THEN o ELSE [f \in (ObsFields \cap DOMAIN o) |-> o[f]]
+Differs(ev, r) == r.out # ev.out \/ Proj(Obs(r.g)) # ev.obs
 
 TStep == /\ Tr[l].c.op # "reset"
          /\ LET ev == Tr[l]
@@ -42,7 +46,7 @@ TStep == /\ Tr[l].c.op # "reset"
             IN  /\ IF CheckObs THEN ~Differs(ev, r)
                    ELSE Differs(ev, r) =>
                           PrintT(ToJson([mismatch_at |-> l, call |-> ev.c,
-                                         expected |-> [out |-> r.out, obs |-> Obs(r.g)],
+                                         expected |-> [out |-> r.out, obs |-> Proj(Obs(r.g))],
                                          logged   |-> [out |-> ev.out, obs |-> ev.obs]]))
                 /\ g' = r.g
                 /\ gh' = GStep(gh, ev.c)
